@@ -93,7 +93,7 @@ func runC07(c *vkit.Ctx, lab *Lab, r *rand.Rand, i int) {
 	}
 	own := BuildOwned(rec)
 	sd := lab.Seed(r, own, LabOpts{Stale: true, Shuffle: true, Hostile: true, TornTail: true})
-	res := prog.RunChild(RunOpt{PkgDir: lab.PkgDir, Scenario: lc.Scenario, Run: lc.Run, Count: lc.Count, Update: lc.Update})
+	res := prog.RunChild(RunOpt{PkgDir: lab.PkgDir, Scenario: lc.Scenario, Run: lc.Run, Count: lc.Count, Extra: lc.Flags, Update: lc.Update})
 	in := labSample(lc)
 	if !res.Complete {
 		c.Violate("clean-did-not-complete", "", fmt.Sprintf("child died: %v %s", res.Err, res.Stderr), in)
@@ -166,7 +166,7 @@ func runC07(c *vkit.Ctx, lab *Lab, r *rand.Rand, i int) {
 		c.Count("entry_checks", 1)
 	}
 	// follow-up read-only process: everything addressed still replays
-	res3 := prog.RunChild(RunOpt{PkgDir: lab.PkgDir, Scenario: lc.Scenario, Run: lc.Run, Count: lc.Count, CI: true})
+	res3 := prog.RunChild(RunOpt{PkgDir: lab.PkgDir, Scenario: lc.Scenario, Run: lc.Run, Count: lc.Count, Extra: lc.Flags, CI: true})
 	if res3.Complete {
 		a3 := Analyze(res3, lab.Src)
 		was := map[string]string{}
